@@ -55,7 +55,7 @@ Inductive value :=
 | VPtr (p : option value)
 | VSlice (isnil : bool) (l : list value)
 | VMap (isnil : bool) (l : list (value * value))   (* insertion order, keys unique *)
-| VFunc (isnil : bool).
+| VFunc (isnil : bool) (fails : bool).
 
 Definition zero_kind (k : kind) : value :=
   match k with
@@ -70,7 +70,7 @@ Definition zero_value (t : vtype) : value :=
   | TPtr _ => VPtr None
   | TSlice _ => VSlice true []
   | TMap _ _ => VMap true []
-  | TFunc _ _ => VFunc true
+  | TFunc _ _ => VFunc true false
   end.
 
 (* ---- struct description (input of the scan) *)
